@@ -368,7 +368,7 @@ func init() {
 func TestVerifC17Writer(t *testing.T) {
 	vRapid(t, "C17", "c17.writer",
 		"every exported command function with an injectable output (22 register/balance/csv/print/summary/report/lint variants + stats) on generated books/logs whose reports range from empty to several 4096-byte blocks; the sink accepts exactly k bytes then fails (ENOSPC, EPIPE or short write) for EVERY k in [0,n) when n <= 2000 (20000 thorough), else k in {0,1,n-1, every 4096 boundary +-1, 40 drawn}; must return an error; control k = n succeeds with the complete report; evaluations count (inputs, command) pairs, program_runs the individual fault offsets; non-trivial = report longer than one byte",
-		vBudget(960, 19200), genC17, checkC17)
+		vBudget(960, 6000), genC17, checkC17)
 }
 
 func TestVerifC17CLI(t *testing.T) {
